@@ -152,12 +152,12 @@ PROPS["C09"] = {
 
 PROPS["C19"] = {
     "level": "proof",
-    "verus": {"exprfmt": ["BinOp::precedence", "Ast::format_with_precedence", "Ast::fmt", "lemma_show_denotes"]},
+    "verus": {"exprfmt": ["BinOp::precedence", "Ast::format_with_precedence", "Ast::fmt", "Expr::fmt", "lemma_show_denotes"]},
     "assumptions": [
         "fmt::Formatter is instantiated with a sink that records one text segment per write_str call; each segment is lexed as written",
         "Value's Display impl emits one literal segment (uninterpreted text); string literals needing escapes are excluded by the statement",
         "derivations of the stratified, left-associative ladder grammar are unique (standard fact), so 'has a derivation whose tree is t' means 'is read as t'",
-        "Display of Select/Join/Insert/Update/Delete is NOT covered",
+        "statements: Display of Delete/Insert/Update/Select/Join is proved to emit exactly the text the project's query grammar assigns to the statement (keywords delimit every part); the expression parts are the text proved in group exprfmt (imported contract Expr::fmt); Value's Display is one opaque literal segment",
     ],
 }
 
@@ -168,7 +168,7 @@ PROPS["C01"]["verus"]["serial"] = SERIAL_FNS
 PROPS["C08"]["verus"]["serial"] = SERIAL_FNS
 
 PROPS["C10"]["verus"]["readers"] = ["PropertyValue::read", "PropertySet::read", "PropertyValue::minimum_version", "Timestamp::read_from"]
-PROPS["C19"]["verus"]["queryfmt"] = ["Delete::fmt", "Insert::fmt", "Update::fmt"]
+PROPS["C19"]["verus"]["queryfmt"] = ["Delete::fmt", "Insert::fmt", "Update::fmt", "Join::fmt", "Select::format_for_join", "Select::fmt"]
 PROPS["C10"]["verus"]["serial"] = ["PropertyValue::encoded_size_including_padding", "PropertyValue::write", "Timestamp::write_to", "lemma_pad"]
 
 PROPS["C15"] = {
